@@ -440,43 +440,48 @@ Proof. repeat split. Qed.
 
 Section DelegFrame.
   Variables (fx : fixes) (cfg : config) (srv : server) (snap : snapshot) (cs : bool) (lim : N).
+  (* any relation on stores that adding a delegated-role file name preserves *)
+  Variable R : store -> store -> Prop.
+  Hypothesis Rrefl : forall s, R s s.
+  Hypothesis Rtrans : forall a b c, R a b -> R b c -> R a c.
+  Hypothesis Radd : forall n s, R s (add_other n s).
 
   Lemma fetch_level_frame dkeys all : forall todo anc acc w r w',
     fetch_level fx cfg srv snap cs lim dkeys all todo anc acc w = (r, w') ->
-    same_docs (w_store w) (w_store w').
+    R (w_store w) (w_store w').
   Proof.
     induction todo as [|[h o] rest IH]; intros anc acc w r w' H; cbn [fetch_level] in H.
-    { inv H. apply same_docs_refl. }
-    destruct (fx_ancestors fx && mem_bytes (dh_name h) anc); [inv H; apply same_docs_refl|].
-    destruct (lookup (json_of (dh_name h)) (sn_meta snap)) as [m|]; [|inv H; apply same_docs_refl].
+    { inv H. apply Rrefl. }
+    destruct (fx_ancestors fx && mem_bytes (dh_name h) anc); [inv H; apply Rrefl|].
+    destruct (lookup (json_of (dh_name h)) (sn_meta snap)) as [m|]; [|inv H; apply Rrefl].
     match type of H with context [fetch ?a ?b ?c ?d] => destruct (fetch a b c d) as [file|sub] end.
-    2:{ inv H. apply same_docs_refl. }
-    destruct (f_body file) as [| | | |t]; try (inv H; apply same_docs_refl).
-    destruct (negb (deleg_verify fx dkeys all (dh_name h) (tg_sigs t))); [inv H; apply same_docs_refl|].
-    destruct (negb (tg_version t =? m_version m)); [inv H; apply same_docs_refl|].
+    2:{ inv H. apply Rrefl. }
+    destruct (f_body file) as [| | | |t]; try (inv H; apply Rrefl).
+    destruct (negb (deleg_verify fx dkeys all (dh_name h) (tg_sigs t))); [inv H; apply Rrefl|].
+    destruct (negb (tg_version t =? m_version m)); [inv H; apply Rrefl|].
     match type of H with context [ds_op ?a ?b ?c ?d] => destruct (ds_op a b c d) as [r2 w2] eqn:E end.
     pose proof (ds_op_general _ _ _ _ _ _ E) as [S2 _]. rewrite logged_store in S2.
-    assert (same_docs (w_store w) (w_store w2)).
-    { destruct S2 as [->|[->| ->]]; [apply same_docs_refl|apply add_other_same_docs|apply add_other_same_docs]. }
+    assert (R (w_store w) (w_store w2)).
+    { destruct S2 as [->|[->| ->]]; [apply Rrefl|apply Radd|apply Radd]. }
     destruct r2 as [u|c a]; [|inv H; assumption].
-    eapply same_docs_trans; [eassumption|]. eapply IH. exact H.
+    eapply Rtrans; [eassumption|]. eapply IH. exact H.
   Qed.
 
   Definition rec_frame (rec : list N -> list (dhdr * option targets) -> list bytes -> world
                              -> res (list (dhdr * option targets)) * world) : Prop :=
-    forall dk rs anc w r w', rec dk rs anc w = (r, w') -> same_docs (w_store w) (w_store w').
+    forall dk rs anc w r w', rec dk rs anc w = (r, w') -> R (w_store w) (w_store w').
 
   Lemma second_loop_frame rec : rec_frame rec -> forall todo anc remaining w r w',
-    second_loop rec anc todo remaining w = (r, w') -> same_docs (w_store w) (w_store w').
+    second_loop rec anc todo remaining w = (r, w') -> R (w_store w) (w_store w').
   Proof.
     intros Hrec. induction todo as [|[h o] rest IH]; intros anc remaining w r w' H; cbn [second_loop] in H.
-    { inv H. apply same_docs_refl. }
-    destruct (lookup (dh_name h) remaining) as [t|]; [|inv H; apply same_docs_refl].
+    { inv H. apply Rrefl. }
+    destruct (lookup (dh_name h) remaining) as [t|]; [|inv H; apply Rrefl].
     destruct (tg_has_deleg t).
     - destruct (rec (tg_dkeys t) (tg_roles t) (anc ++ [dh_name h]) w) as [[rs|c a] w1] eqn:E.
       + apply Hrec in E.
         destruct (second_loop rec anc rest (assoc_remove (dh_name h) remaining) w1) as [[rs2|c a] w2] eqn:E2;
-          apply IH in E2; inv H; eapply same_docs_trans; eassumption.
+          apply IH in E2; inv H; eapply Rtrans; eassumption.
       + apply Hrec in E. inv H. exact E.
     - destruct (second_loop rec anc rest (assoc_remove (dh_name h) remaining) w) as [[rs2|c a] w2] eqn:E2;
         apply IH in E2; inv H; exact E2.
@@ -485,9 +490,9 @@ Section DelegFrame.
   Lemma load_delegs_frame fuel : rec_frame (load_delegs fx cfg srv snap cs lim fuel).
   Proof.
     induction fuel as [|f IH]; intros dk rs anc w r w' H; cbn [load_delegs] in H.
-    { inv H. apply same_docs_refl. }
+    { inv H. apply Rrefl. }
     destruct (fetch_level fx cfg srv snap cs lim dk rs rs anc [] w) as [[fetched|c a] w1] eqn:E.
-    - apply fetch_level_frame in E. eapply same_docs_trans; [exact E|].
+    - apply fetch_level_frame in E. eapply Rtrans; [exact E|].
       eapply second_loop_frame; [exact IH|exact H].
     - apply fetch_level_frame in E. inv H. exact E.
   Qed.
@@ -568,7 +573,7 @@ Proof.
   destruct (tg_has_deleg t0).
   - destruct (load_delegs fx cfg srv sn (r_cs r) lim (c_fuel cfg) (tg_dkeys t0) (tg_roles t0)
                           [name_targets_role] w3) as [[rs|c a] w4] eqn:E4;
-      apply load_delegs_frame in E4 as (R4 & T4 & S4 & G4).
+      apply (load_delegs_frame _ _ _ _ _ _ same_docs same_docs_refl same_docs_trans add_other_same_docs) in E4 as (R4 & T4 & S4 & G4).
     + destruct (validate (tg_set_roles t0 rs)) eqn:Val; inv H; rewrite <- R4, <- T4, <- S4, <- G4, R3, T3, S3', G3.
       * split; [reflexivity|split; [reflexivity|split; [reflexivity|split; [right; eauto|]]]].
         exists t0. split; [reflexivity|split; [exact Acc|split; [right; eauto|exact Val]]].
